@@ -5,7 +5,7 @@
 
 package testscript
 
-//@ property C02: (*TestScript).parse, (*TestScript).Fatalf, (*TestScript).expand, expand$1, (*TestScript).Getenv, (*TestScript).Setenv, envvarname, (*TestScript).execBackground, (*TestScript).exec, (*TestScript).buildExecCmd
+//@ property C02: (*TestScript).parse, (*TestScript).Fatalf, (*TestScript).expand, expand$1, (*TestScript).Getenv, (*TestScript).Setenv, envvarname, (*TestScript).execBackground, (*TestScript).exec, (*TestScript).buildExecCmd, (*TestScript).cmdEnv
 //@ bounded C02: TestVerifBoundedTokenizer
 
 
@@ -120,7 +120,7 @@ package testscript
 //@   ensures forall p int {gWaitedCmd[p]} :: old(gWaitedCmd)[p] ==> gWaitedCmd[p]
 
 // ---- C16: UpdateScripts ----
-//@ property C16: (*TestScript).doCmdCmp, (*TestScript).Check, (*TestScript).MkAbs, (*TestScript).applyScriptUpdates
+//@ property C16: (*TestScript).doCmdCmp, (*TestScript).Check, (*TestScript).MkAbs, (*TestScript).applyScriptUpdates, (*TestScript).run
 
 //@ func (*TestScript).Check
 //@   requires ts != nil
@@ -143,6 +143,7 @@ package testscript
 //@   requires ts != nil && ts.envMap != nil && ts.scriptUpdates != nil && ts.scriptFiles != ts.scriptUpdates && len(args) == 2
 //@   at call (*testscript.TestScript).MkAbs#1: bind abs2 = result
 //@   at call (*testscript.TestScript).ReadFile#1: bind text1G = result
+//@   at call diff.Diff#1: requires sid(old) == sid(text1) && sid(new) == sid(text2)
 //@   modifies Md_Int_Str, Mv_Int_Str, new bytes
 //@   ensures forall k int {mapkeys(ts.scriptUpdates)[k]} {mapvals(ts.scriptUpdates)[k]} :: (mapkeys(ts.scriptUpdates)[k] != old(mapkeys(ts.scriptUpdates))[k] || mapvals(ts.scriptUpdates)[k] != old(mapvals(ts.scriptUpdates))[k]) ==> (!neg && !env && ts.params.UpdateScripts && mapdom(ts.scriptFiles, abs2) && k == sid(ts.scriptFiles[abs2]) && sameStr(mapvals(ts.scriptUpdates)[k], text1G))
 //@   ensures forall r int {Md_Int_Str[r]} {Mv_Int_Str[r]} :: r != ts.scriptUpdates ==> Md_Int_Str[r] == old(Md_Int_Str)[r] && Mv_Int_Str[r] == old(Mv_Int_Str)[r]
@@ -186,7 +187,7 @@ package testscript
 //@   ensures forall K {at(ts.archive.Files,K)} :: lo(ts.archive.Files) <= K && K < hi(ts.archive.Files) ==> sameStr(at(ts.archive.Files,K).Name, old(at(ts.archive.Files,K)).Name) && (!mapkeys(ts.scriptUpdates)[at(ts.archive.Files,K).Name] ==> sameSlice(at(ts.archive.Files,K).Data, old(at(ts.archive.Files,K)).Data))
 
 // ---- C01: verdict logic ----
-//@ property C01: (*TestScript).run, (*TestScript).runLine, (*TestScript).Fatalf, catchFailNow, (*TestScript).cmdExists, scriptMatch, (*TestScript).MkAbs, (*TestScript).Check, (*TestScript).condition, (*TestScript).cmdExec, (*TestScript).cmdCd, (*TestScript).cmdChmod, (*TestScript).cmdCp, (*TestScript).cmdMkdir, (*TestScript).cmdMv, (*TestScript).cmdRm, (*TestScript).cmdSymlink, (*TestScript).cmdUnquote, (*TestScript).cmdUNIX2DOS, (*TestScript).cmdStdin, (*TestScript).cmdStop, (*TestScript).cmdCmp, (*TestScript).cmdCmpenv, (*TestScript).cmdWait, (*TestScript).cmdSkip, (*TestScript).cmdStdout, (*TestScript).cmdStderr, (*TestScript).cmdGrep, (*TestScript).cmdTtyout, (*TestScript).Chdir, (*TestScript).ReadFile, cmd/testscript/(*runT).Run, cmd/testscript/Run$1
+//@ property C01: (*TestScript).run, (*TestScript).runLine, (*TestScript).Fatalf, catchFailNow, (*TestScript).cmdExists, scriptMatch, (*TestScript).MkAbs, (*TestScript).Check, (*TestScript).condition, (*TestScript).cmdExec, (*TestScript).cmdCd, (*TestScript).cmdChmod, (*TestScript).cmdCp, (*TestScript).cmdMkdir, (*TestScript).cmdMv, (*TestScript).cmdRm, (*TestScript).cmdSymlink, (*TestScript).cmdUnquote, (*TestScript).cmdUNIX2DOS, (*TestScript).cmdStdin, (*TestScript).cmdStop, (*TestScript).cmdCmp, (*TestScript).cmdCmpenv, (*TestScript).cmdWait, (*TestScript).cmdSkip, (*TestScript).cmdStdout, (*TestScript).cmdStderr, (*TestScript).cmdGrep, (*TestScript).cmdTtyout, (*TestScript).Chdir, (*TestScript).ReadFile, cmd/testscript/(*runT).Run, cmd/testscript/Run$1, RunMain$1
 
 //@ extern (github.com/rogpeppe/go-internal/testscript.T).FailNow(t)
 //@   noreturn
@@ -249,6 +250,9 @@ package testscript
 //@   ensures !builtinCond(cond) && !imports.KnownOS[cond] && cond == "unix" ==> err == nil && r == imports.UnixOS["linux"]
 //@   ensures !builtinCond(cond) && !imports.KnownOS[cond] && cond != "unix" && imports.KnownArch[cond] ==> err == nil && r == (cond == "amd64")
 //@   at call (*regexp.Regexp).MatchString#1: bind gGoVerCond = r
+//@   at call slices.Contains#1: bind gInTags = r
+//@   at call slices.Contains#1: requires sameStr(v, cond)
+//@   ensures !builtinCond(cond) && !imports.KnownOS[cond] && cond != "unix" && !imports.KnownArch[cond] && !(len(cond) >= 5 && cond[0] == 'e' && cond[1] == 'x' && cond[2] == 'e' && cond[3] == 'c' && cond[4] == ':') && cond != "gc" && cond != "gccgo" && gGoVerCond ==> err == nil && r == gInTags
 //@   ensures !builtinCond(cond) && !imports.KnownOS[cond] && cond != "unix" && !imports.KnownArch[cond] && !(len(cond) >= 5 && cond[0] == 'e' && cond[1] == 'x' && cond[2] == 'e' && cond[3] == 'c' && cond[4] == ':') && cond != "gc" && cond != "gccgo" && !gGoVerCond ==> ts.params.Condition != nil
 //@   ensures !builtinCond(cond) && !imports.KnownOS[cond] && cond != "unix" && !imports.KnownArch[cond] && (cond == "gc" || cond == "gccgo") ==> err == nil && r == (cond == "gc")
 //@ func (*TestScript).callBuiltinCmd
@@ -301,9 +305,17 @@ package testscript
 //@   loop 3: invariant -1 <= rangeindex
 //@   ensures !ts.stopped && ts.scriptUpdates != nil && len(ts.background) == 0
 //@   ensures ts.envMap != nil && ts.archive != nil
+// env NAME=VALUE: the name is everything before the FIRST '=', the value everything after
+// it, and the value is stored as given (the arguments were already expanded once by parse;
+// no second expansion). Index safety of the listing branch (env without arguments) is not
+// shown here (nosafety): it needs 'every element of ts.env contains =' as a type invariant.
 //@ func (*TestScript).cmdEnv
-//@   trusted
-//@   pure
+//@   requires ts != nil && ts.envMap != nil
+//@   nosafety
+//@   modifies F_S_testscript_TestScript_env, H_Str, Md_*, Mv_*, new M*
+//@   at call (*testscript.TestScript).Setenv#1: requires firstIdx(env, '=') >= 0 && sameStr(key, env[:firstIdx(env, '=')]) && sameStr(value, env[firstIdx(env, '=')+1:])
+//@   loop 1: invariant -1 <= rangeindex && ts.envMap != nil
+//@   loop 2: invariant -1 <= rangeindex && ts.envMap != nil
 // waitBackground: every recorded background command's wait channel has been received from
 // (so, by cmdExec$1, its Wait has returned) before the list is cleared.
 //@ extern (*os.ProcessState).Success(p) (r)
@@ -668,3 +680,13 @@ package testscript
 //@   at call context.Background#1: ghost seenRunNames = emptySet()
 //@   loop 2: invariant names != nil && forall k int {seenRunNames[k]} :: seenRunNames[k] ==> mapkeys(names)[k] && mapvals(names)[k]
 //@   loop 3: invariant names != nil && forall k int {seenRunNames[k]} :: seenRunNames[k] ==> mapkeys(names)[k] && mapvals(names)[k]
+
+// RunMain (C01: an exec'd command's exit status decides the verdict of the exec line):
+// each wrapped command exits with exactly the status its function returned.
+//@ ghost var gCmdStatus Int
+//@ extern os.Exit(code)
+//@   noreturn
+//@ func RunMain$1
+//@   noreturn
+//@   callee fn() (r): pure; bind gCmdStatus = r
+//@   at call os.Exit#1: requires code == gCmdStatus
